@@ -13,7 +13,13 @@ SmallCaKeys == {"a1", "b1"}
 SmallLims == {None, {"r1"}}
 SmallUris == {"p1/x", "p2/x", "zz/x"}
 SmallVals == {"d1"}
+OneSuspendable == {<<"P", "c1">>}
 SmallUpdatable == {<<"P", "c1">>, <<"P", "c2">>, <<"R", "p1">>, <<"P", "P">>}
+\* a tiny universe for the action coverage run
+TinyCaKeys == {"a1"}
+TinyLims == {None}
+TinyUris == {"p1/x", "zz/x"}
+TinyUpdatable == {<<"P", "c1">>, <<"R", "p1">>, <<"P", "P">>}
 \* the larger universe of the thorough tier
 BigLims == {None, {"r1"}, {"r3"}}
 BigVals == {"d1", "d2"}
@@ -35,10 +41,11 @@ MCChildId ==
     /\ last' = NoReq
 MCServerId == (\E s \in CaServers : ServerId(s)) /\ last' = NoReq
 MCPubReReg == (\E q \in DOMAIN reg["R"] : PubReReg(q)) /\ last' = NoReq
+MCSuspend == (\E x \in Suspendable : Suspend(x[1], x[2])) /\ last' = NoReq
 
 MCNext ==
     \/ MCPerform \/ MCDecline \/ MCRefuse
-    \/ MCChildId \/ MCServerId \/ MCPubReReg
+    \/ MCChildId \/ MCServerId \/ MCPubReReg \/ MCSuspend
 
 MCSpec == MCInit /\ [][MCNext]_<<vars, last>>
 
@@ -64,5 +71,5 @@ ReplacedIdentityRefused ==
 \* The request of the last step and the status counters do not influence
 \* any rule: states are identified by the rest (every transition is still
 \* generated and checked against the action properties).
-View == <<reg, srv, iss, pub>>
+View == <<reg, srv, iss, pub, susp, held>>
 =============================================================================
